@@ -69,3 +69,65 @@ Lemma k1_is_identity (logm : bool) fm x y : (logm = true -> 0 < y) ->
   extrap_full logm fm [x] [y] = Some y.
 Proof. intros Hy. unfold extrap_full, extrap_entry. destruct logm; cbn; numR; [|reflexivity].
   rewrite exp_ln; auto. Qed.
+
+(** ** the wrapped function used repeatedly (one wrap, any number of calls) *)
+
+(** every call returns what the pure function returns on the list given at wrap time, and the captured list is
+    left as it was: the k-th call cannot tell how many calls went before it. *)
+Lemma run_calls_pure (step : list R -> list R -> option R) store calls :
+  run_calls step store calls = (map (fun c => step (call_xs store (fst c)) (snd c)) calls, store).
+Proof. induction calls as [|c t IH]; [reflexivity|]. cbn [run_calls wrapped_call fst snd map]. rewrite IH. reflexivity. Qed.
+
+(** so: polynomial data (any coefficient set per call; with no explicit list, any grid list per call) extrapolates
+    exactly on EVERY call of the same wrapped function. *)
+Lemma repeated_calls_exact (store : option (list R)) (calls : list (list R * list R)) :
+  Forall (fun c => let xs := call_xs store (fst c) in
+                   length (snd c) = length xs /\ (1 <= length xs <= 6)%nat /\ NoDup xs) calls ->
+  run_calls extrap_entry store (map (fun c => (fst c, map (peval (snd c)) (call_xs store (fst c)))) calls)
+  = (map (fun c => Some (hd 0 (snd c))) calls, store).
+Proof.
+  intros Hall. rewrite run_calls_pure. f_equal. rewrite map_map.
+  apply map_ext_in. intros c Hin. cbn [fst snd].
+  rewrite Forall_forall in Hall. destruct (Hall c Hin) as (Hl & Hk & Hd). apply extrap_exact; assumption.
+Qed.
+
+(** a wrapper that reverses (a fortiori: sorts) the captured list in place after using it is exact on the first call
+    and wrong on the second: f(x) = x on the spacings [2; 1]. *)
+Lemma rewriting_store_refuted :
+  exists (g : list R -> list R) (xs cs : list R),
+    length cs = length xs /\ NoDup xs /\
+    let c := (@nil R, map (peval cs) xs) in
+    nth 0 (fst (run_calls_rewriting g extrap_entry (Some xs) [c; c])) None = Some (hd 0 cs) /\
+    nth 1 (fst (run_calls_rewriting g extrap_entry (Some xs) [c; c])) None <> Some (hd 0 cs).
+Proof.
+  exists (@rev R), [2; 1], [0; 1]. split; [reflexivity|]. split.
+  { repeat constructor; cbn [In]; intuition lra. }
+  cbn [run_calls_rewriting option_map call_xs fst snd nth rev app hd]. split.
+  - apply (extrap_exact [0; 1] [2; 1]); [reflexivity | cbn; lia | repeat constructor; cbn [In]; intuition lra].
+  - unfold extrap_entry. cbn [length map peval Nat.eqb combine].
+    assert (E : lagrange0 [(1, 0 + 2 * (1 + 2 * 0)); (2, 0 + 1 * (1 + 1 * 0))] = 3).
+    { assert (H12 : 1 <> 2) by lra. lag_unfold. field. }
+    numR. cbn [peval] in *. numR. intros Hc. injection Hc as Hc. revert Hc. numR. intros Hc. rewrite E in Hc. lra.
+Qed.
+
+(** ** the batched form used by the correspondence check is the model, for every number type (no algebra involved) *)
+Section Batched.
+  Context {F : Type} `{Num F}.
+  Lemma map_fst_combine_len (xs ys : list F) : length xs = length ys -> map fst (combine xs ys) = xs.
+  Proof. revert ys; induction xs as [|x t IH]; intros [|y u] Hl; cbn in *; try discriminate; [reflexivity|].
+    f_equal. apply IH. congruence. Qed.
+  Lemma map_weights_combine (g : F -> F) (xs ys : list F) :
+    map (fun p => nmul (g (fst p)) (snd p)) (combine xs ys) = map (fun p => nmul (fst p) (snd p)) (combine (map g xs) ys).
+  Proof. revert ys; induction xs as [|x t IH]; intros [|y u]; cbn; try reflexivity. f_equal. apply IH. Qed.
+  Lemma lagrange0_w_eq (xs ys : list F) : length xs = length ys ->
+    lagrange0_w (map (lag0_weight xs) xs) ys = lagrange0 (combine xs ys).
+  Proof. intros Hl. unfold lagrange0, lagrange0_w. rewrite (map_fst_combine_len xs ys Hl).
+    rewrite <- map_weights_combine. reflexivity. Qed.
+  Lemma extrap_entry_w_eq (xs ys : list F) : extrap_entry_w xs (map (lag0_weight xs) xs) ys = extrap_entry xs ys.
+  Proof. unfold extrap_entry_w, extrap_entry. destruct (Nat.eqb (length xs) (length ys)) eqn:E.
+    - apply Nat.eqb_eq in E. rewrite (lagrange0_w_eq xs ys E). reflexivity.
+    - destruct (length xs) as [|[|[|[|[|[|[|n]]]]]]]; reflexivity. Qed.
+  Lemma extrap_full_pre_eq (logm : bool) (fm : F) (xs ys : list F) :
+    extrap_full_pre logm fm xs (map (lag0_weight xs) xs) ys (if logm then map nln ys else ys) = extrap_full logm fm xs ys.
+  Proof. unfold extrap_full_pre, extrap_full. rewrite extrap_entry_w_eq. reflexivity. Qed.
+End Batched.
